@@ -28,7 +28,13 @@ func init() {
 		if k, _ := d["error_kind"].(string); k != "" {
 			errs = append(errs, c18ErrOf(k))
 		}
-		vs := writerFault(ops, int(d["fail_at"].(float64)), d["permanent"].(bool), partial, errs...)
+		var more []int
+		if m, ok := d["fail_more"]; ok {
+			if err := reJSON(m, &more); err != nil {
+				return err
+			}
+		}
+		vs := writerFaults(ops, int(d["fail_at"].(float64)), more, d["permanent"].(bool), partial, errs...)
 		for _, v := range vs {
 			fmt.Printf("  [%s] %s\n", v.Sig, v.Msg)
 		}
@@ -69,12 +75,18 @@ var c18ErrKinds = []struct {
 // writerFault runs a history with the writer failing at Write index failAt and checks every
 // call during which an injected error was returned.
 func writerFault(ops []MOp, failAt int, perm, partial bool, errs ...error) (vs []Viol) {
+	return writerFaults(ops, failAt, nil, perm, partial, errs...)
+}
+
+// writerFaults: the same with further one-shot failures at the Write indices in more (a writer that fails, recovers
+// and fails again).
+func writerFaults(ops []MOp, failAt int, more []int, perm, partial bool, errs ...error) (vs []Viol) {
 	errInjected := errInjected
 	if len(errs) > 0 {
 		errInjected = errs[0]
 	}
 	h := NewMuxH(40)
-	h.W.FailAt, h.W.Perm, h.W.Partial, h.W.FailErr = failAt, perm, partial, errInjected
+	h.W.FailAt, h.W.Perm, h.W.Partial, h.W.FailErr, h.W.FailMore = failAt, perm, partial, errInjected, more
 	for i, op := range ops {
 		f0 := h.W.FailedIn
 		c := h.Do(op, 1)
@@ -159,6 +171,10 @@ func checkC18(c *mc.Ctx) {
 		"writepacket":               append(append([]MOp{}, setupAB...), opPktNull, opPktAF, opPktShort, opDataAs1, opTables, opPktShAF, opPktNull),
 		"full-header-ext-af":        append(append([]MOp{}, setupAB...), MOp{K: "data", PID: 0x100, Len: 300, Hdr: "full", AF: "ext"}, MOp{K: "data", PID: 0x101, Len: 150, Hdr: "ptsdts", AF: "splice"}, opDataAs1),
 	}
+	baseScens := map[string]bool{}
+	for k := range scens {
+		baseScens[k] = true
+	}
 	if c.Thorough() {
 		scens["cc-wrap-17"] = append(append([]MOp{}, setupAB...), opDataA17, opDataB17, opTables)
 		for _, af := range []string{"raipcr", "priv10", "splice", "ext", "priv0", "noroompcr", "noroomstuff", "priv167"} {
@@ -205,12 +221,41 @@ func checkC18(c *mc.Ctx) {
 		c.Ev.AddScenario(mc.Scenario{Name: "writer-error-values:" + name, SpaceSize: nk, Executed: donek, Exhaustive: donek == nk,
 			Bound: fmt.Sprintf("every one of the %d Write calls x %d standard-library error values, one-shot", W, len(c18ErrKinds))})
 		c.Ev.Class("writer-fault-error-values", donek)
+		// a writer that fails twice: every pair of Write indices (thorough tier: every scenario; quick: the four base ones)
+		if _, isBase := baseScens[name]; isBase || c.Thorough() {
+			var pairs [][2]int
+			for a := 0; a < W; a++ {
+				for b := a + 1; b <= W; b++ {
+					pairs = append(pairs, [2]int{a, b})
+				}
+			}
+			if !c.Thorough() && len(pairs) > 3000 {
+				// quick tier: the second failure within the next 12 Write calls
+				var near [][2]int
+				for _, p := range pairs {
+					if p[1]-p[0] <= 12 {
+						near = append(near, p)
+					}
+				}
+				pairs = near
+			}
+			np := int64(len(pairs)) * 2
+			donep := mc.ParFor(np, c.OverBudget, func(i int64) {
+				p, partial := pairs[i/2], i%2 == 1
+				for _, v := range writerFaults(ops, p[0], []int{p[1]}, false, partial) {
+					c.Rep.Report(v.Sig, map[string]any{"kind": "writer-fault", "scenario": name, "ops": ops, "fail_at": p[0], "fail_more": []int{p[1]}, "permanent": false, "partial": partial, "message": v.Msg})
+				}
+			})
+			c.Ev.AddScenario(mc.Scenario{Name: "writer-two-failures:" + name, SpaceSize: np, Executed: donep, Exhaustive: donep == np,
+				Bound: fmt.Sprintf("pairs of one-shot failing Write indices (%d pairs) x {nothing accepted, first half accepted}", len(pairs))})
+			c.Ev.Class("writer-two-failures", donep)
+		}
 		if len(c.Ev.Samples) < 2 {
 			c.Ev.Sample(map[string]any{"scenario": name, "ops": fmt.Sprint(ops), "write_calls": W})
 		}
 	}
 	readerFaults(c)
-	c.Ev.Require("writer-fault-runs", "writer-partial-write", "reader-fault-runs", "reader-fault-inside-autodetect", "reader-fault-error-values", "writer-fault-error-values")
+	c.Ev.Require("writer-fault-runs", "writer-partial-write", "reader-fault-runs", "reader-fault-inside-autodetect", "reader-fault-error-values", "writer-fault-error-values", "writer-two-failures")
 }
 
 // ---------------------------------------------------------------------------------------
